@@ -253,6 +253,11 @@ def run(P, C):
             kinds["duplicate"] = g
         elif txt in ("(!v0[v1])", "(!v0[v1].operator bool())"):
             kinds["missing"] = g
+        elif txt.replace(" ", "") in ("(find(v0.begin(),v0.end(),0)!=v0.end())", "(v0.end()!=find(v0.begin(),v0.end(),0))",
+                                      "(find(v0.begin(),v0.end(),false)!=v0.end())", "(count(v0.begin(),v0.end(),0)!=0)",
+                                      "(0!=count(v0.begin(),v0.end(),0))", "(0<count(v0.begin(),v0.end(),0))") and \
+                any(f.k(y) == "DeclRefExpr" and f.nodes[y]["decl"].get("id") == order[0] for y in f.walk(f.nodes[kinds["duplicate"]["node"]]["cond"])) if "duplicate" in kinds else False:
+            kinds["missing"] = g        # the same flag vector searched for an entry that is still false
     # the validated value is the entry itself, at full width: a narrowed copy would let 2^32+k pass as k
     g = kinds.get("out-of-range")
     narrowed = None
